@@ -47,3 +47,129 @@ package condition
 //@ func buildPrimitive
 //@   props C16
 //@   ensures[built_or_error] result1 == nil ==> result0 != nil
+
+// ---- C18: primitives ----
+
+//@ spec fetchFails(f Fetcher, req *bfe_basic.Request) bool := abstract
+//@ spec matcherSays(m Matcher, v interface{}) bool := abstract
+
+//@ func (Fetcher).Fetch
+//@   trusted abstract contract of the fetcher interface: fetching writes nothing; whether it fails is a function of fetcher and request
+//@   modifies nothing
+//@   ensures (result1 != nil) == fetchFails(recv, req)
+
+//@ func (Matcher).Match
+//@   trusted abstract contract of the matcher interface: matching writes nothing and is a function of matcher and value
+//@   modifies nothing
+//@   ensures result0 == matcherSays(recv, a0)
+
+//@ func (DefaultTrueCond).Match
+//@   props C18
+//@   nopanic
+//@   modifies nothing
+//@   ensures[always_true] result0
+
+//@ func (*PrimitiveCond).Match
+//@   props C18
+//@   nopanic
+//@   requires p != nil && p.fetcher != nil && p.matcher != nil
+//@   modifies nothing
+//@   ensures[incomplete_request_never_matches] req == nil || req.Session == nil || req.HttpRequest == nil ==> !result0
+//@   ensures[missing_attribute_never_matches] req != nil && fetchFails(p.fetcher, req) ==> !result0
+
+//@ func prefixIn
+//@   props C18
+//@   nopanic
+//@   modifies nothing
+//@   ensures[some_pattern_is_a_prefix] result0 <==> (exists k int :: 0 <= k && k < len(patterns) && hasPrefix(v, patterns[k]))
+//@   loop 1 invariant[none_so_far] forall k int :: 0 <= k && k <= rangeindex ==> !hasPrefix(v, patterns[k])
+
+//@ func suffixIn
+//@   props C18
+//@   nopanic
+//@   modifies nothing
+//@   ensures[some_pattern_is_a_suffix] result0 <==> (exists k int :: 0 <= k && k < len(patterns) && hasSuffix(v, patterns[k]))
+//@   loop 1 invariant[none_so_far] forall k int :: 0 <= k && k <= rangeindex ==> !hasSuffix(v, patterns[k])
+
+//@ func contain
+//@   props C18
+//@   nopanic
+//@   modifies nothing
+//@   ensures[some_pattern_is_a_substring] result0 <==> (exists k int :: 0 <= k && k < len(patterns) && strContains(v, patterns[k]))
+//@   loop 1 invariant[none_so_far] forall k int :: 0 <= k && k <= rangeindex ==> !strContains(v, patterns[k])
+
+//@ func (*ExactMatcher).Match
+//@   props C18
+//@   nopanic
+//@   requires em != nil
+//@   modifies nothing
+//@   ensures[not_a_string_never_matches] !typeis(v, "string") ==> !result0
+//@   ensures[exact_match_with_case_handling] typeis(v, "string") ==> (result0 <==> (em.foldCase ? toUpper(unbox(v, "string")) : unbox(v, "string")) == em.pattern)
+
+//@ func (*PrefixInMatcher).Match
+//@   props C18
+//@   nopanic
+//@   requires p != nil
+//@   modifies nothing
+//@   ensures[not_a_string_never_matches] !typeis(v, "string") ==> !result0
+//@   ensures[prefix_match_with_case_handling] typeis(v, "string") ==> (result0 <==> (exists k int :: 0 <= k && k < len(p.patterns) && hasPrefix(p.foldCase ? toUpper(unbox(v, "string")) : unbox(v, "string"), p.patterns[k])))
+
+//@ func (*SuffixInMatcher).Match
+//@   props C18
+//@   nopanic
+//@   requires p != nil
+//@   modifies nothing
+//@   ensures[not_a_string_never_matches] !typeis(v, "string") ==> !result0
+//@   ensures[suffix_match_with_case_handling] typeis(v, "string") ==> (result0 <==> (exists k int :: 0 <= k && k < len(p.patterns) && hasSuffix(p.foldCase ? toUpper(unbox(v, "string")) : unbox(v, "string"), p.patterns[k])))
+
+//@ func (*ContainMatcher).Match
+//@   props C18
+//@   nopanic
+//@   requires cm != nil
+//@   modifies nothing
+//@   ensures[not_a_string_never_matches] !typeis(v, "string") ==> !result0
+//@   ensures[substring_match_with_case_handling] typeis(v, "string") ==> (result0 <==> (exists k int :: 0 <= k && k < len(cm.patterns) && strContains(cm.foldCase ? toUpper(unbox(v, "string")) : unbox(v, "string"), cm.patterns[k])))
+
+//@ func (*IPMatcher).Match
+//@   props C18
+//@   nopanic
+//@   requires ip != nil && len(ip.startIP) == 16 && len(ip.endIP) == 16
+//@   modifies nothing
+//@   ensures[not_an_address_never_matches] !typeis(v, "net.IP") ==> !result0
+//@   ensures[malformed_address_never_matches] typeis(v, "net.IP") && len(unbox(v, "net.IP")) != 4 && len(unbox(v, "net.IP")) != 16 ==> !result0
+//@   ensures[inclusive_range] typeis(v, "net.IP") && (len(unbox(v, "net.IP")) == 4 || len(unbox(v, "net.IP")) == 16) ==> (result0 <==> be128(ip.startIP) <= ipVal(unbox(v, "net.IP")) && ipVal(unbox(v, "net.IP")) <= be128(ip.endIP))
+
+//@ func GetHash
+//@   props C18
+//@   nopanic
+//@   requires 0 < base && base <= 1000000000
+//@   modifies nothing
+//@   ensures[bucket_in_range] 0 <= result0 && result0 < int(base)
+//@   ensures[bucket_of_the_value] value != nil ==> result0 == int(keyHash(value) % uint64(base))
+
+//@ func (*HashValueMatcher).Match
+//@   props C18
+//@   nopanic
+//@   requires matcher != nil && len(matcher.buckets) == HashMatcherBucketSize
+//@   modifies nothing
+//@   ensures[other_values_never_match] !typeis(v, "string") && !typeis(v, "net.IP") ==> !result0
+
+//@ spec sectionLo(section string) int := abstract
+//@ spec sectionHi(section string) int := abstract
+
+//@ func parserHashSectionConf
+//@   props C18
+//@   nopanic
+//@   modifies nothing
+//@   ensures[accepted_sections_are_ordered_bucket_ranges] result2 == nil ==> 0 <= result0 && result0 <= result1 && result1 < HashMatcherBucketSize
+//@   assumes[names_the_parsed_bounds] result2 == nil ==> result0 == sectionLo(section) && result1 == sectionHi(section)
+//@   loop 1 invariant[numbers_so_far_in_range] (rangeindex >= 0 ==> 0 <= start && start <= end && end < HashMatcherBucketSize) && len(numbers) >= 1 && len(numbers) <= 2
+
+//@ func setHashBuckets
+//@   props C18
+//@   nopanic
+//@   requires buckets != nil && len(*buckets) == HashMatcherBucketSize
+//@   modifies (*buckets)[..]
+//@   ensures[rejected_section_changes_nothing] result0 != nil ==> (forall k int :: 0 <= k && k < len(*buckets) ==> ((*buckets)[k] <==> old((*buckets)[k])))
+//@   ensures[exactly_the_section_is_added] result0 == nil ==> (forall k int :: 0 <= k && k < len(*buckets) ==> ((*buckets)[k] <==> (old((*buckets)[k]) || (sectionLo(section) <= k && k <= sectionHi(section)))))
+//@   loop 1 invariant[filled_so_far] start <= i && i <= end + 1 && 0 <= start && end < HashMatcherBucketSize && start == sectionLo(section) && end == sectionHi(section) && len(*buckets) == HashMatcherBucketSize && (forall k int :: 0 <= k && k < len(*buckets) ==> ((*buckets)[k] <==> (old((*buckets)[k]) || (start <= k && k < i))))
